@@ -168,6 +168,18 @@ def _pairs(rng, toks, lo, hi):
     return [[rng.choice(toks), rng.choice(toks)] for _ in range(rng.randint(lo, hi))]
 
 
+def _kw_pairs(rng, toks, lo, hi, unhash=False):
+    """pairs whose keys are distinct identifier strings, so that the kwargs forms apply"""
+    keys = rng.sample(IDENT, min(len(IDENT), rng.randint(max(lo, 1), max(hi, 1))))
+    out = []
+    for k in keys:
+        v = rng.choice(toks)
+        if unhash and rng.random() < 0.3:
+            v = 900 + rng.randrange(3)
+        out.append([k, v])
+    return out
+
+
 def _pick_form(rng, forms, pairs):
     for _ in range(6):
         f = rng.choice(forms)
@@ -214,8 +226,12 @@ def gen_oto(rng, tier):
                                "setdefault", "update", "update", "update", "ior", "get"])
             k, v = rng.choice(toks), rng.choice(toks)
             if name in ("update", "ior"):
-                p = _pairs(rng, toks, 0, 4)
-                ops.append(["op", i, s, name, p, _pick_form(rng, OTO_FORMS, p)])
+                if rng.random() < 0.2:
+                    p = _kw_pairs(rng, toks, 1, 3)
+                    ops.append(["op", i, s, name, p, rng.choice(["kwargs", "dict+kw"])])
+                else:
+                    p = _pairs(rng, toks, 0, 4)
+                    ops.append(["op", i, s, name, p, _pick_form(rng, OTO_FORMS, p)])
             elif name in ("set", "setdefault", "popd"):
                 ops.append(["op", i, s, name, k, v])
             elif name in ("popitem", "clear"):
@@ -287,8 +303,12 @@ def gen_fd(rng, tier):
                            "hash", "hash", "get", "updated", "updated", "copy", "clone"])
         k, v = rng.choice(toks), rng.choice(toks)
         if name in ("update", "ior", "updated"):
-            p = _fd_pairs(rng, toks, 0, 3, unhash and name == "updated")
-            ops.append([name, p, _pick_form(rng, FD_FORMS, p)])
+            if rng.random() < 0.35:
+                p = _kw_pairs(rng, toks, 1, 3, unhash and name == "updated")
+                ops.append([name, p, rng.choice(["kwargs", "dict+kw"])])
+            else:
+                p = _fd_pairs(rng, toks, 0, 3, unhash and name == "updated")
+                ops.append([name, p, _pick_form(rng, FD_FORMS, p)])
         elif name in ("setitem", "setdefault", "popd"):
             ops.append([name, k, v])
         elif name in ("delitem", "pop", "get"):
@@ -356,9 +376,9 @@ def generate(rng, tier, n):
             yield c
     for i in range(n):
         r = rng.random()
-        if r < 0.45:
+        if r < 0.42:
             yield gen_oto(rng, tier)
-        elif r < 0.85:
+        elif r < 0.80:
             yield gen_m2m(rng, tier)
         else:
             yield gen_fd(rng, tier)
